@@ -37,7 +37,10 @@ def run_native(scratch, fields, release=False, threads=None):
     exe = build(scratch, release)
     txt = "".join(f"{k}={v}\n" for k, v in fields.items())
     env = dict(os.environ, RAYON_NUM_THREADS=str(threads)) if threads else None
-    p = subprocess.run([exe], input=txt, capture_output=True, text=True, timeout=120, env=env)
+    try:
+        p = subprocess.run([exe], input=txt, capture_output=True, text=True, timeout=int(fields.get("timeout_s", 120)), env=env)
+    except subprocess.TimeoutExpired:
+        return {"timeout": f"the native run did not finish within {fields.get('timeout_s', 120)} s"}
     out = {}
     for l in p.stdout.splitlines():
         if "=" in l:
